@@ -6,15 +6,36 @@ STATIC_NOTE = (
     "behaviour. Trusted: the syn parse equals what rustc compiles; the frozen expectation tables in /verif/fv."
 )
 
+def _c(text, technique):
+    return {"text": text + " A violated rule refutes the property; passing establishes only these necessary conditions.", "note": STATIC_NOTE, "technique": technique}
+
+
 CLAIMS = {
-    "C01": {
-        "text": "Static table-agreement analysis: every arm of the graph->SSA lowering, the register-allocator "
-        "lowering, the four interpreter loops and the reference evaluator is shown to map its opcode to the "
-        "namesake operation with operands in the order its form dictates. A violated rule refutes the property; "
-        "passing establishes only these necessary conditions.",
-        "note": STATIC_NOTE,
-        "technique": "static analysis: syntax-tree table-agreement lint (syn AST, per-arm term normalisation)",
-    },
+    "C01": _c(
+        "Static table-agreement analysis: every arm of the graph->SSA lowering, the register-allocator lowering and "
+        "router, the allocator's per-case load/store/bind protocol and helper effects, the four interpreter loops and the "
+        "reference evaluator is shown to map its opcode to the namesake operation with operands in the order its form dictates.",
+        "static analysis: syntax-tree table-agreement and protocol lint (syn AST, per-arm term normalisation)",
+    ),
+    "C02": _c(
+        "Static analysis of the RegOp->assembler dispatch (namesake builder, operand order per form, immediates through "
+        "load_imm, trait default helpers expanded), of every extern callback (computes its builder's namesake with "
+        "arguments in order and is the one passed), and of builder-set completeness across the eight assemblers.",
+        "static analysis: table-agreement lint over the dispatch match, trait defaults and extern callbacks",
+    ),
+    "C04": _c(
+        "Static analysis of VmData::simplify: exactly one choice consumed per choice op on every structured path "
+        "(including the inactive-skip path), Left/Right/Both continue with the first/second/both operands, every surviving "
+        "op renames its output and all register operands, order parity of tape and choice walks, op accounting counts "
+        "every output, result shares the parent's variable map.",
+        "static analysis: path/pairing and role-consistency lint over simplify's match arms",
+    ),
+    "C20": _c(
+        "Static analysis of the two interpreter tracing loops: every choice arm records the choice half of the very call "
+        "whose value it stores, advances the choice iterator once, and derives the simplify flag from that choice; "
+        "non-choice arms never touch either; the trace is returned iff the flag is set.",
+        "static analysis: per-arm pairing lint (choice iterator protocol) and return-shape guard",
+    ),
 }
 
 PENDING = "check not built yet in this round (static rules planned in DESIGN.md section 3)"
